@@ -233,6 +233,33 @@ fn mk_const(s: &str) -> ConstDivisor {
     ConstDivisor::new(ubig(s))
 }
 
+/// the decimal number that follows `key` (first occurrence at or after `from`) in a Debug string
+fn dbg_num(s: &str, key: &str, from: usize) -> (u128, usize) {
+    let i = from + s[from..].find(key).unwrap_or_else(|| panic!("Debug output has no {}", key)) + key.len();
+    let digits: String = s[i..].chars().take_while(|c| c.is_ascii_digit()).collect();
+    (digits.parse().expect("number in Debug output"), i)
+}
+
+/// `<kind> <shift> <normalised divisor> <m> [<top divisor> <len>]` in hex, parsed from `{:?}`
+fn const_fields(c: &ConstDivisor) -> String {
+    let s = format!("{:?}", c);
+    if s.contains("Single(") || s.contains("Double(") {
+        let kind = if s.contains("Single(") { 1 } else { 2 };
+        let (d, i) = dbg_num(&s, "divisor: ", 0);
+        let (m, _) = dbg_num(&s, "m: ", i);
+        let (sh, _) = dbg_num(&s, "shift: ", 0);
+        format!("{:x} {:x} {:x} {:x}", kind, sh, d, m)
+    } else {
+        let i0 = s.find("normalized_divisor: [").expect("Large") + "normalized_divisor: [".len();
+        let i1 = i0 + s[i0..].find(']').expect("]");
+        let words: Vec<Word> = s[i0..i1].split(',').map(|t| t.trim().parse().expect("word")).collect();
+        let (sh, _) = dbg_num(&s, "shift: ", i1);
+        let (d, j) = dbg_num(&s, "divisor: ", i1);
+        let (m, _) = dbg_num(&s, "m: ", j);
+        format!("3 {:x} {} {:x} {:x} {:x}", sh, words_hex(false, &words), m, d, words.len())
+    }
+}
+
 /// `lhs` padded with zero words to exactly `m` words
 fn padded(s: &str, m: usize) -> Vec<Word> {
     let (_, mut w) = hex_words(s);
@@ -320,6 +347,20 @@ fn run(op: &str, a: &[&str]) -> String {
                         assert!(c == ConstDivisor::new(d.clone()), "from_dword differs from new");
                         c.value().h()
                     }));
+                }
+                agree(v)
+            }
+            // the stored fields of a ConstDivisor, read off its derived Debug output (they are private): value, kind 1/2/3,
+            // shift, normalised divisor, reciprocal m (Large: + the top double word the reciprocal belongs to, length in
+            // words); from_word / from_dword must show the same fields as new
+            "fields" => {
+                let d = ubig(a[0]);
+                let mut v = vec![cu(|| { let c = ConstDivisor::new(d.clone()); format!("{} {}", c.value().h(), const_fields(&c)) })];
+                if let Ok(w) = Word::try_from(&d) {
+                    v.push(cu(|| { let c = ConstDivisor::from_word(w); format!("{} {}", c.value().h(), const_fields(&c)) }));
+                }
+                if let Ok(dw) = DoubleWord::try_from(&d) {
+                    v.push(cu(|| { let c = ConstDivisor::from_dword(dw); format!("{} {}", c.value().h(), const_fields(&c)) }));
                 }
                 agree(v)
             }
